@@ -301,6 +301,8 @@ fn op_kind(o: &Op) -> u8 {
         Op::Drain => 127,
         Op::Forget => 128,
         Op::SetAlt { on } => 129 + *on as u8,
+        Op::SetTight { on } => 131 + *on as u8,
+        Op::AppPubrelBig { .. } => 133,
     }
 }
 
@@ -403,7 +405,22 @@ fn tune(prop: &str, c: &mut Cfg, p: &mut GenProfile, r: &mut Rng) {
             p.w_pub = 45;
             p.w_peerpub = 25;
         }
+        "C19" => {
+            if c.wire_v == 5 && r.chance(1, 2) {
+                let l = [None, Some(5u32), Some(16), Some(20), Some(40)];
+                c.c_mps = *r.pick(&l);
+                c.s_mps = *r.pick(&l);
+            }
+            c.ka = *r.pick(&[0u16, 5, 10, 60]);
+            c.pingresp_to_ms = *r.pick(&[0u64, 3000]);
+            p.w_timer = 15;
+        }
         "C15" => {
+            if c.wire_v == 5 && r.chance(1, 3) {
+                let l = [None, Some(5u32), Some(16), Some(40)];
+                c.c_mps = *r.pick(&l);
+                c.s_mps = *r.pick(&l);
+            }
             c.ka = *r.pick(&[0u16, 5, 10, 60, 21846, 65535]);
             c.pingresp_to_ms = *r.pick(&[0u64, 3000, 5000]);
             p.w_timer = 25;
@@ -981,6 +998,27 @@ fn gen_c17(rng: &mut Rng, tier: Tier, run: u64) -> (Case, Outcome) {
     // "from then on": the comparison starts with the first CONNECT
     let first = ops.iter().position(|o| matches!(o, Op::Connect { .. })).unwrap_or(ops.len());
     ops.drain(..first);
+    if rng.chance(1, 4) && !ops.is_empty() {
+        // the very first CONNECT has the right protocol level but does not parse
+        let mut p = cfg.connect_pkt(true);
+        p.client_id = "cid".into();
+        let mut b = crate::wire::encode(&p, if cfg.pid32 { 4 } else { 2 });
+        let cut = rng.range(1, 3) as usize;
+        let n = b.len() - cut;
+        b.truncate(n);
+        b[1] = (n - 2) as u8;
+        // ... followed, on a new transport, by a well-formed CONNECT of the other level: a server
+        // that has adopted the version refuses it exactly like a fixed-version server
+        let mut q = cfg.connect_pkt(true);
+        q.v = if cfg.wire_v == 4 { 5 } else { 4 };
+        q.props.clear();
+        let other = crate::wire::encode(&q, if cfg.pid32 { 4 } else { 2 });
+        ops.insert(0, Op::Close { partial: 0 });
+        ops.insert(0, Op::PeerRaw { bytes: other });
+        ops.insert(0, Op::Close { partial: 0 });
+        ops.insert(0, Op::PeerRaw { bytes: b });
+        o.stats.hit("c17_first_connect_malformed");
+    }
     if ops.is_empty() {
         return (Case::Fork { kind: ForkKind::Version, cfg, ops: vec![], cont: ops, mangle: ExportMangle::None }, o);
     }
